@@ -110,6 +110,11 @@ func (t *ProcessorTask) Do(ctx context.Context, b *Batch) error {
 	if len(recsOut) == 0 {
 		return cerrors.Errorf("processor didn't return any records")
 	}
+	if len(recsOut) > len(recsIn) {
+		// More results than records: there is no record the extra results could
+		// belong to, marking them would index past the batch.
+		return cerrors.Errorf("processor returned %d records for %d input records", len(recsOut), len(recsIn))
+	}
 	t.metrics.Observe(len(recsOut), start)
 
 	if len(recsIn) > len(recsOut) {
